@@ -205,7 +205,7 @@ func c32Sizes(a []c32Accepted) []int {
 	return s
 }
 
-const c32Watchdog = 60 * time.Second
+const c32Watchdog = 45 * time.Second
 
 type c32RunInfo struct {
 	closeDeadlock bool
@@ -531,7 +531,7 @@ func TestC32(t *testing.T) {
 		"a dropped batch is justified when the queue was observed full at some queue observation between the acceptance of its first message and the read of the next emitted batch (the monitor is the only reader, so the queue length only grows between its reads)",
 		"liveness of Close is not part of the statement: a Close that blocks in timer.Stop while the timer callback waits for the buffer lock is counted (close_hangs_outside_statement) but not reported as a violation",
 	)
-	closeHangs := 0
+	closeHangs, gaveUp := 0, false
 	report := func(c c32Case, finds []c32Finding) {
 		for _, f := range finds {
 			r.Violation(f.key, c, "%s", f.detail)
@@ -547,6 +547,7 @@ func TestC32(t *testing.T) {
 		}
 		if info.inconclusive != "" {
 			r.Inconclusive("%s (case %s)", info.inconclusive, c32Shape(c))
+			gaveUp = true // a watchdog fired: the verdict is inconclusive anyway, do not spend more watchdogs
 			return
 		}
 		if info.closeDeadlock {
@@ -583,6 +584,7 @@ func TestC32(t *testing.T) {
 		r.Guard("MessageBuffer-concurrent", c, func() { finds, st, info, lens = c32RunConc(c) })
 		if info.inconclusive != "" {
 			r.Inconclusive("%s (case %s)", info.inconclusive, c32Shape(c))
+			gaveUp = true
 			return
 		}
 		if info.closeDeadlock {
@@ -616,13 +618,13 @@ func TestC32(t *testing.T) {
 		}
 	}
 	rng := r.Rand("sequential")
-	n := r.N(6000, 150000)
-	for i := 0; i < n && r.Violations() < 12 && closeHangs < 20; i++ {
+	n := r.N(6000, 60000)
+	for i := 0; i < n && r.Violations() < 12 && closeHangs < 20 && !gaveUp; i++ {
 		judgeSeq(c32GenSeq(rng))
 	}
 	crng := r.Rand("concurrent")
-	m := r.N(600, 12000)
-	for i := 0; i < m && r.Violations() < 12 && closeHangs < 20; i++ {
+	m := r.N(600, 6000)
+	for i := 0; i < m && r.Violations() < 12 && closeHangs < 20 && !gaveUp; i++ {
 		c := c32Case{MaxSize: c32Maxes[crng.IntN(len(c32Maxes))], Timer: crng.IntN(2) == 0}
 		if c.MaxSize < 16 {
 			c.MaxSize = 16
@@ -641,8 +643,8 @@ func TestC32(t *testing.T) {
 		}
 		judgeConc(c)
 	}
-	if r.Violations() > 0 {
-		r.Finish(0) // cut short by the violation cap
+	if r.Violations() > 0 || gaveUp {
+		r.Finish(0) // cut short
 		return
 	}
 	r.Finish(1000)
